@@ -187,16 +187,21 @@ def pregen(repo):
         text = ("// GENERATED on every run by /verif/lib/verus_c14.py from src/prayer_times/date.rs (fn partition):\n"
                 "// the statement `%s;` verbatim.\n"
                 "pub(crate) fn %s(%s) -> %s {\n    %s\n}\n"
-                "#[kani::proof]\n#[kani::solver(kissat)]\npub fn c14_outlined_partition_1() {\n"
+                "macro_rules! c14_bs {\n    ($name:ident, $clo:expr, $chi:expr) => {\n"
+                "#[kani::proof]\n#[kani::solver(kissat)]\npub fn $name() {\n"
                 "    let days: usize = kani::any();\n    let count: usize = kani::any();\n"
-                "    kani::assume(days <= 8_000_001 && count >= 2 && count <= 65536);\n"
+                "    kani::assume(days <= 8_000_001 && count >= $clo && count <= $chi);\n"
                 "    crate::vcover!();\n"
                 "    let r = %s(days, count) as i64;\n"
                 "    assert!(0 <= r && r <= 8_000_001, \"C14 block size in range\");\n"
                 "    assert!(r * count as i64 >= days as i64, \"C14 block size * count covers the days (ceil is not too small)\");\n"
                 "    assert!(days == 0 || (r - 1) * (count as i64) < days as i64, \"C14 block size is the ceiling (not too large)\");\n"
                 "    assert!(days != 0 || r == 0, \"C14 block size of an empty range is 0\");\n"
-                "}\n" % (re.sub(r"\s+", " ", o["stmt"]), o["name"], ", ".join(o["args"]), o["ret"], o["rhs"], o["name"]))
+                "}\n    };\n}\n"
+                "c14_bs!(c14_outlined_partition_1, 2, 64);\n"
+                "c14_bs!(c14_outlined_partition_1_c1024, 65, 1024);\n"
+                "c14_bs!(c14_outlined_partition_1_c65536, 1025, 65536);\n"
+                % (re.sub(r"\s+", " ", o["stmt"]), o["name"], ", ".join(o["args"]), o["ret"], o["rhs"], o["name"]))
     except (X.LostAnchor, IndexError, OSError) as e:
         text = "// extraction failed: %s (C14 reports the lost anchor)\n" % e
     open(path, "w").write(text)
